@@ -448,11 +448,12 @@ __ymd_get_bday(dt_ymd_t that, dt_bizda_param_t bp)
 		return -1;
 	}
 
-	/* weekday the month started with */
+	/* weekday of the day in question, on a weekend that's the count as
+	 * of the friday before, which is what a saturday or sunday written
+	 * as business day comes out as */
 	switch ((wdd = __ymd_get_wday(that))) {
 	case DT_SUNDAY:
 	case DT_SATURDAY:
-		return -1;
 	case DT_MONDAY:
 	case DT_TUESDAY:
 	case DT_WEDNESDAY:
